@@ -210,6 +210,52 @@ func TestVF_C11_Histories(t *testing.T) {
 					lastJS, lastNonce = js, nonce
 				}
 			},
+			"refreshScenario": func(rt *rapid.T) {
+				// prepared commitment, then the accumulator moves on, the witness follows, and the
+				// proof is made through the (now outdated) prepared commitment
+				if w.revAt != 0 {
+					rt.Skip("revoked")
+				}
+				step("refreshScenario: prepareCache; revokeOther; updateWitness; prove")
+				if err := w.cred.cred.NonrevPrepareCache(); err != nil {
+					fail("prepare-cache-error", err.Error())
+					return
+				}
+				w.cacheAt = int64(w.idx)
+				o, err := w.world.newWitness()
+				if err != nil {
+					rt.Fatalf("witness: %v", err)
+				}
+				if _, err := w.world.revoke(o.E); err != nil {
+					rt.Fatalf("revoke: %v", err)
+				}
+				upd, err := w.world.updateFrom(w.idx + 1)
+				if err != nil {
+					rt.Fatalf("update: %v", err)
+				}
+				if err := w.cred.cred.NonRevocationWitness.Update(pk, upd); err != nil {
+					fail("valid-witness-update-fails", err.Error())
+					return
+				}
+				w.idx = w.world.acc.Index
+				w.afterRefresh = true
+				if rapid.Bool().Draw(rt, "prepareAgain") {
+					if err := w.cred.cred.NonrevPrepareCache(); err != nil {
+						fail("prepare-cache-error", err.Error())
+						return
+					}
+				}
+				js, nonce, sig, what := w.proveAndCheck(rec)
+				w.cacheAt = -1
+				if sig != "" {
+					fail(sig, what)
+					return
+				}
+				if js != nil {
+					earlierJS = lastJS
+					lastJS, lastNonce = js, nonce
+				}
+			},
 			"tamperedWitness": func(rt *rapid.T) {
 				// the holder points the witness to a newer accumulator without a valid update
 				latest := w.world.acc.Index
